@@ -2,6 +2,7 @@ package props
 
 import (
 	"fmt"
+	"github.com/ethereum/go-ethereum/crypto"
 	"math/big"
 	"sort"
 
@@ -44,6 +45,8 @@ func init() {
 				cs = append(cs, Case{Kind: "sstore", P: []int64{int64(f)}})
 				cs = append(cs, Case{Kind: "callgas", P: []int64{int64(f)}, Seed: h.Mix(seed, 0xC02C, uint64(f))})
 				cs = append(cs, Case{Kind: "selfdestruct", P: []int64{int64(f)}, Seed: h.Mix(seed, 0xC02D, uint64(f))})
+				cs = append(cs, Case{Kind: "createwarm", P: []int64{int64(f)}})
+				cs = append(cs, Case{Kind: "pcprice", P: []int64{int64(f)}})
 			}
 			return cs
 		},
@@ -109,7 +112,7 @@ func runC02(c Case, tier string) (res CaseResult) {
 		if !ok {
 			return
 		}
-		for _, v := range gasArithmetic(fs.L) {
+		for _, v := range append(gasArithmetic(fs.L), gasBounds(fs.L)...) {
 			res.Fail(Key("arith", dc.Tx.Entry.String()), "fork gas stream violates gas[i+1]=gas[i]-cost[i](+returned)", dc.Desc, v)
 		}
 		opsCovered(&res, fs.L)
@@ -176,7 +179,7 @@ func runC02(c Case, tier string) (res CaseResult) {
 	case "tree":
 		dc := genDualTree(c.Seed)
 		if fs, _, ok := dualStreams(&res, dc, false, "call tree"); ok {
-			for _, v := range gasArithmetic(fs.L) {
+			for _, v := range append(gasArithmetic(fs.L), gasBounds(fs.L)...) {
 				res.Fail(Key("arith", "tree"), "fork gas stream violates gas[i+1]=gas[i]-cost[i](+returned)", dc.Desc, v)
 			}
 			res.Shape("tree", shapeOf(fs.L))
@@ -210,7 +213,7 @@ func runC02(c Case, tier string) (res CaseResult) {
 								Desc: fmt.Sprintf("sstore fork=%s eips=%v orig=%d cur=%d new=%d gas=%d", f, eips, o, cu, nw, gas)}
 							if fs, _, ok := dualStreams(&res, dc, false, "sstore"); ok {
 								res.Shape("sstore", f, o, cu, nw, gas, len(eips))
-								for _, v := range gasArithmetic(fs.L) {
+								for _, v := range append(gasArithmetic(fs.L), gasBounds(fs.L)...) {
 									res.Fail(Key("arith", "sstore"), "fork gas stream inconsistent", dc.Desc, v)
 								}
 							}
@@ -240,6 +243,10 @@ func runC02(c Case, tier string) (res CaseResult) {
 					for _, t := range order {
 						a.PushU(0).PushU(0).PushU(0).PushU(0).PushU(uint64(bal%2)).PushAddr(h.ContractAddr(t)).PushU(100000).Op(h.CALL, h.POP)
 					}
+					// what the transaction can still see of the destroyed contracts and their beneficiaries
+					for i, who := range []common.Address{h.ContractAddr(1), h.ContractAddr(2), h.ContractAddr(3), ben1} {
+						a.PushAddr(who).Op(h.BALANCE).PushU(uint64(40 + i)).Op(h.SSTORE)
+					}
 					a.Op(h.STOP)
 					w := h.BaseWorld([][]byte{a.Bytes(), d1, d2, d3})
 					for i := 1; i <= 3; i++ {
@@ -258,6 +265,93 @@ func runC02(c Case, tier string) (res CaseResult) {
 		}
 		res.Evals = n
 		res.Count("selfdestruct_cases", n)
+	case "createwarm":
+		// a creation that fails (reverting / invalid / colliding / oversize init code, top level of the program or nested)
+		// followed by accesses to the address it would have had: warm or cold, and priced how, is the reference's call
+		f := h.Fork(c.P[0])
+		n := int64(0)
+		inits := [][]byte{
+			h.NewAsm().PushU(0).PushU(0).Op(h.REVERT).Bytes(),
+			{h.INVALID},
+			h.NewAsm().PushU(1).PushU(0).Op(h.SSTORE, h.STOP).Bytes(),
+			h.NewAsm().PushU(24577).PushU(0).Op(h.RETURN).Bytes(),
+			h.NewAsm().Push(new(uint256.Int).Lsh(uint256.NewInt(0xEF), 248)).PushU(0).Op(h.MSTORE).PushU(1).PushU(0).Op(h.RETURN).Bytes(),
+		}
+		for ii, init := range inits {
+			for _, c2 := range []bool{false, true} {
+				if c2 && f < h.Constantinople {
+					continue
+				}
+				for _, probe := range []byte{h.BALANCE, h.EXTCODESIZE, h.EXTCODEHASH, h.CALL, h.STATICCALL, h.SELFDESTRUCT} {
+					var target common.Address
+					if c2 {
+						target = crypto.CreateAddress2(h.ContractAddr(0), common.Hash{31: 9}, crypto.Keccak256(init))
+					} else {
+						target = crypto.CreateAddress(h.ContractAddr(0), 1)
+					}
+					for _, collide := range []bool{false, true} {
+						a := h.NewAsm().MstoreBytes(0, init)
+						if c2 {
+							a.PushU(9).PushU(uint64(len(init))).PushU(0).PushU(0).Op(h.CREATE2)
+						} else {
+							a.PushU(uint64(len(init))).PushU(0).PushU(0).Op(h.CREATE)
+						}
+						a.PushU(1).Op(h.SSTORE)
+						switch probe {
+						case h.CALL:
+							a.PushU(0).PushU(0).PushU(0).PushU(0).PushU(0).PushAddr(target).PushU(5000).Op(h.CALL, h.POP)
+						case h.STATICCALL:
+							a.PushU(0).PushU(0).PushU(0).PushU(0).PushAddr(target).PushU(5000).Op(h.STATICCALL, h.POP)
+						case h.SELFDESTRUCT:
+							a.PushAddr(target).Op(h.SELFDESTRUCT)
+						default:
+							a.PushAddr(target).Op(probe, h.POP)
+						}
+						a.Op(h.GAS).PushU(2).Op(h.SSTORE, h.STOP)
+						w := h.BaseWorld([][]byte{a.Bytes()})
+						if collide {
+							w.Set(h.Acct{Addr: target, Balance: big.NewInt(3), Nonce: 1})
+						}
+						dc := DualCase{World: w, Env: h.EnvSpec{Fork: f}, Tx: h.TxSpec{Entry: h.ECall, From: h.Sender, To: h.ContractAddr(0), Gas: 3_000_000},
+							Desc: fmt.Sprintf("createwarm fork=%s init#%d create2=%v occupied=%v probe=%#x", f, ii, c2, collide, probe)}
+						if fs, _, ok := dualStreams(&res, dc, false, "createwarm"); ok {
+							res.Shape("createwarm", f, ii, c2, collide, probe, shapeOf(fs.L))
+						}
+						n++
+					}
+				}
+			}
+		}
+		res.Evals = n
+		res.Count("createwarm_cases", n)
+	case "pcprice":
+		// every standard precompile with zero-filled inputs of the lengths at which its price formula changes, ample and
+		// tight gas: the fee charged (and so the gas handed back) is the reference's on every fork
+		f := h.Fork(c.P[0])
+		n := int64(0)
+		for pc := byte(1); pc <= 10; pc++ {
+			for _, l := range []uint64{0, 1, 31, 32, 33, 64, 96, 97, 128, 191, 192, 193, 213, 384, 576, 1000} {
+				for _, gas := range []uint64{1_000_000, 150_000, 3000, 60} {
+					a := h.NewAsm()
+					if pc == 9 && l == 213 {
+						a.PushU(1).PushU(3).Op(h.MSTORE8) // 1 round
+					}
+					if pc == 5 && l >= 96 {
+						a.PushU(1).PushU(0).Op(h.MSTORE).PushU(1).PushU(32).Op(h.MSTORE).PushU(1).PushU(64).Op(h.MSTORE) // 1-byte base, exponent, modulus
+					}
+					a.PushU(64).PushU(0x800).PushU(l).PushU(0).PushU(0).PushAddr(common.BytesToAddress([]byte{pc})).PushU(gas).Op(h.CALL).PushU(1).Op(h.SSTORE)
+					a.Op(h.GAS).PushU(2).Op(h.SSTORE, h.RETURNDATASIZE).PushU(3).Op(h.SSTORE, h.STOP)
+					dc := DualCase{World: h.BaseWorld([][]byte{a.Bytes()}), Env: h.EnvSpec{Fork: f}, Tx: h.TxSpec{Entry: h.ECall, From: h.Sender, To: h.ContractAddr(0), Gas: 2_000_000},
+						Desc: fmt.Sprintf("pcprice fork=%s precompile=%d inputlen=%d callgas=%d", f, pc, l, gas)}
+					if fs, _, ok := dualStreams(&res, dc, false, "pcprice"); ok {
+						res.Shape("pcprice", f, pc, l, gas, shapeOf(fs.L))
+					}
+					n++
+				}
+			}
+		}
+		res.Evals = n
+		res.Count("pcprice_cases", n)
 	case "callgas":
 		f := h.Fork(c.P[0])
 		r := h.NewRNG(c.Seed)
@@ -266,16 +360,21 @@ func runC02(c Case, tier string) (res CaseResult) {
 		n := int64(0)
 		for _, kind := range []byte{h.CALL, h.CALLCODE, h.DELEGATECALL, h.STATICCALL} {
 			for _, tgt := range targets {
-				for _, val := range []uint64{0, 1} {
+				for _, val := range []uint64{0, 1, 255} { // 255: stands for the value 2^255 (more than any balance; top bit set)
 					if val != 0 && (kind == h.DELEGATECALL || kind == h.STATICCALL) {
 						continue
 					}
 					for _, cg := range []*uint256.Int{uint256.NewInt(0), uint256.NewInt(2300), uint256.NewInt(2301), uint256.NewInt(30000), uint256.NewInt(1 << 40), new(uint256.Int).Not(uint256.NewInt(0)),
-						new(uint256.Int).Lsh(uint256.NewInt(1), 64), new(uint256.Int).AddUint64(new(uint256.Int).Lsh(uint256.NewInt(1), 64), 5), new(uint256.Int).Lsh(uint256.NewInt(1), 255), new(uint256.Int).AddUint64(new(uint256.Int).Lsh(uint256.NewInt(1), 128), 30000), new(uint256.Int).Lsh(uint256.NewInt(0xdeadbeef), 96)} {
+						new(uint256.Int).Lsh(uint256.NewInt(1), 64), new(uint256.Int).AddUint64(new(uint256.Int).Lsh(uint256.NewInt(1), 64), 5), new(uint256.Int).Lsh(uint256.NewInt(1), 255), new(uint256.Int).AddUint64(new(uint256.Int).Lsh(uint256.NewInt(1), 128), 30000), new(uint256.Int).Lsh(uint256.NewInt(0xdeadbeef), 96),
+						uint256.NewInt(^uint64(0)), uint256.NewInt(^uint64(0) - 700), uint256.NewInt(1 << 63)} {
 						a := h.NewAsm()
 						a.PushU(32).PushU(0).PushU(32).PushU(0)
 						if kind == h.CALL || kind == h.CALLCODE {
-							a.PushU(val)
+							if val == 255 {
+								a.Push(new(uint256.Int).Lsh(uint256.NewInt(1), 255))
+							} else {
+								a.PushU(val)
+							}
 						}
 						a.PushAddr(tgt).Push(cg).Op(kind).PushU(3).Op(h.SSTORE, h.STOP)
 						w := h.BaseWorld([][]byte{a.Bytes(), callee})
@@ -284,7 +383,7 @@ func runC02(c Case, tier string) (res CaseResult) {
 								Desc: fmt.Sprintf("callgas fork=%s kind=%#x target=%s value=%d callgas=%s txgas=%d", f, kind, tgt.Hex(), val, cg.Hex(), gas)}
 							if fs, _, ok := dualStreams(&res, dc, false, "callgas"); ok {
 								res.Shape("callgas", f, kind, tgt, val, cg.Hex(), shapeOf(fs.L))
-								for _, v := range gasArithmetic(fs.L) {
+								for _, v := range append(gasArithmetic(fs.L), gasBounds(fs.L)...) {
 									res.Fail(Key("arith", "callgas"), "fork gas stream inconsistent", dc.Desc, v)
 								}
 							}
